@@ -71,11 +71,12 @@ Meta(i, ts) == [id |-> i, ts |-> ts]
 Next ==
   \/ \E k \in Keyspaces, i \in Ids, ts \in Stamps, d \in Payloads : Put(k, <<Doc(i, ts, d)>>, "put")
   \/ \E k \in Keyspaces, ts \in Stamps, d \in Payloads, ts2 \in Stamps, d2 \in Payloads :
-        \E i, j \in Ids : i # j /\ Put(k, <<Doc(i, ts, d), Doc(j, ts2, d2)>>, "multi_put")
+        \* two documents; the same id twice (two versions in one call, as a replication batch may carry them): the last one stays
+        \E i, j \in Ids : (i # j \/ <<ts, d>> # <<ts2, d2>>) /\ Put(k, <<Doc(i, ts, d), Doc(j, ts2, d2)>>, "multi_put")
   \/ \E k \in Keyspaces : Put(k, <<>>, "multi_put")
   \/ \E k \in Keyspaces, i \in Ids, ts \in Stamps : Mark(k, <<Meta(i, ts)>>, "mark_as_tombstone")
   \/ \E k \in Keyspaces, ts \in Stamps, ts2 \in Stamps :
-        \E i, j \in Ids : i # j /\ Mark(k, <<Meta(i, ts), Meta(j, ts2)>>, "mark_many_as_tombstone")
+        \E i, j \in Ids : (i # j \/ ts # ts2) /\ Mark(k, <<Meta(i, ts), Meta(j, ts2)>>, "mark_many_as_tombstone")
   \/ \E k \in Keyspaces, ids \in SUBSET Ids : RemoveTombstones(k, ids)
   \/ Reopen
 
